@@ -42,6 +42,7 @@ INTERVENING = {
     "re-presentation": ["{dest};255;0;0;17;2.1"],
     "battery": ["{dest};255;3;0;0;50"],
     "garbage-version": ["0;255;3;0;2;garbage"],
+    "reconnect": [],  # handled specially: the application leaves and re-enters the gateway context
     "wake-write-fault": [],  # handled specially: a second command is held too and the first flush write fails
 }
 
@@ -66,9 +67,13 @@ async def send_case(ctx, case: dict) -> None:
     stepper = Stepper(gateway, transport)
     state = case["dest"]
     gateway.nodes[OTHER] = Node(OTHER, 17, "2.0", children={0: Child(0, 3)}, sleeping=True)
-    if state != "unknown":
+    if state not in ("unknown", "episode-open"):
         gateway.nodes[DEST] = Node(DEST, 17, "2.0", children={0: Child(0, 3), 7: Child(7, 3)},
                                    sleeping=(state == "sleeping"))
+    if state in ("episode-open", "child-episode-open"):
+        # a message from the unknown node / for an unknown child opened a presentation-request episode (2.x)
+        await stepper.rx(f"{DEST};9;1;0;0;1\n")
+        transport.take_writes()
     fields = tuple(case["fields"])
     line = ";".join(str(f) for f in fields) + "\n"
     kwargs = {} if case["buffered"] is None else {"message_buffer": case["buffered"]}
@@ -127,6 +132,10 @@ async def send_case(ctx, case: dict) -> None:
                               case)
         await stepper.close()
         return
+    if case["intervening"] == "reconnect":
+        await stepper.close()
+        await gateway.__aexit__(None, None, None)
+        await gateway.__aenter__()
     for template in INTERVENING[case["intervening"]]:
         await stepper.rx(template.format(dest=DEST, other=OTHER, wake=wake) + "\n")
     proto = gateway.protocol.VERSION
@@ -145,6 +154,48 @@ async def send_case(ctx, case: dict) -> None:
         key = "internal-parked-forever" if fields[2] == 3 else "held-message-lost"
         ctx.violation(key, f"send({fields!r:.60}) was held for sleeping node {DEST} but its next wake (protocol {proto}, "
                            f"after {case['intervening']}) wrote {after}", case)
+    await stepper.close()
+
+
+async def pair_case(ctx, case: dict) -> None:
+    """Two sends to a sleeping destination before its wake: neither may be silently discarded
+    (a set superseded by a newer set for the same child and type is the only stated exception, C07)."""
+    from aiomysensors.model.message import Message
+    from aiomysensors.model.node import Child, Node
+
+    version = case["version"]
+    gateway, transport = new_gateway(version)
+    stepper = Stepper(gateway, transport)
+    gateway.nodes[DEST] = Node(DEST, 17, "2.0", children={0: Child(0, 3), 7: Child(7, 3)}, sleeping=True)
+    lines = []
+    outcomes = []
+    for fields in case["sends"]:
+        line = ";".join(str(f) for f in fields) + "\n"
+        kind, exc = await stepper.tx(Message(*fields))
+        writes = transport.take_writes()
+        lines.append(line)
+        if kind == "error":
+            outcomes.append("error" if is_library_error(exc) else "foreign:" + type(exc).__name__)
+        elif line in writes:
+            outcomes.append("written")
+        else:
+            outcomes.append("held")
+    wake = 32 if gateway.protocol.VERSION == "2.2" else 22
+    await stepper.rx(f"{DEST};255;3;0;{wake};1\n")
+    after = transport.take_writes()
+    ctx.case(("pair", version, repr(case["sends"])), sample=case)
+    ctx.clause("pair-of-sends-classified")
+    (a, b) = case["sends"]
+    superseded = a[2] == 1 and b[2] == 1 and a[:2] == b[:2] and a[4] == b[4]
+    for index, (line, outcome) in enumerate(zip(lines, outcomes)):
+        if outcome.startswith("foreign"):
+            ctx.violation("send-foreign-exception-" + outcome.split(":")[1], f"send({case['sends'][index]}) raised {outcome}", case)
+        elif outcome == "held":
+            if index == 0 and superseded:
+                continue
+            if after.count(line) != 1:
+                ctx.violation("held-message-lost", f"sends {case['sends']} to sleeping node {DEST}: {line!r} was held but the "
+                                                   f"node's next wake wrote {after}", case)
     await stepper.close()
 
 
@@ -198,8 +249,8 @@ def cases(ctx):
                 children = [255, 0] if cmd == 0 else ([0, 7] if cmd in (1, 2) else [255])
                 if cmd == 3 and mtype in (3, 4):
                     children = [255, 3]
-                for child, dest, buffered in itertools.product(children, ("unknown", "awake", "sleeping"),
-                                                               (None, True, False)):
+                states = ("unknown", "awake", "sleeping") + (("episode-open", "child-episode-open") if cmd == 3 else ())
+                for child, dest, buffered in itertools.product(children, states, (None, True, False)):
                     if not ctx.mine():
                         continue
                     if not spec.rules_ok(DEST, child, cmd, 0, mtype):
@@ -216,7 +267,9 @@ def cases(ctx):
 
 
 def run_case(ctx, case: dict) -> None:
-    if "object" in case:
+    if "sends" in case:
+        arun(pair_case(ctx, case))
+    elif "object" in case:
         arun(nonmessage_case(ctx, case))
     else:
         arun(send_case(ctx, case))
@@ -226,11 +279,18 @@ def run(ctx) -> None:
     with Reach(ANCHORS) as reach:
         for case in cases(ctx):
             arun(send_case(ctx, case))
+        pair_pool = [[DEST, 0, 1, 0, 2, "s1"], [DEST, 0, 2, 0, 2, ""], [DEST, 0, 1, 1, 3, "s2"], [DEST, 7, 2, 0, 2, ""],
+                     [DEST, 7, 1, 0, 2, "s3"], [DEST, 255, 3, 0, 13, ""], [DEST, 0, 0, 0, 6, "p"], [DEST, 255, 4, 0, 0, "fw"],
+                     [DEST, 0, 2, 1, 3, "q"], [DEST, 255, 3, 0, 19, ""]]
+        for version in ("2.0", "2.1", "2.2"):
+            for a, b in itertools.product(pair_pool, repeat=2):
+                if ctx.mine():
+                    arun(pair_case(ctx, {"version": version, "sends": [a, [*b[:5], b[5] + "'"]]}))
         names = ["None", "str", "bytes", "int", "list", "dict-six-fields", "dict-empty", "object", "tuple", "duck",
                  "subclass", "class", "float", "dict-partial"]
         for version, name, buffered in itertools.product([None, *VERSIONS], names, (None, True, False)):
             if ctx.mine():
                 arun(nonmessage_case(ctx, {"version": version, "object": name, "buffered": buffered}))
     reach.into(ctx)
-    for clause in ("send-classified", "held-written-at-wake", "nonmessage-rejected"):
+    for clause in ("send-classified", "held-written-at-wake", "nonmessage-rejected", "pair-of-sends-classified"):
         ctx.require(clause, 50)
